@@ -86,6 +86,9 @@ type originRec struct {
 
 // stringKey: a map key / identity for a string that depends on its contents only (ckey is uninterpreted).
 func (vc *VC) stringKey(s Val) *Term {
+	if k, ok := vc.strKeys[s.C[0].id]; ok && s.C[1] == Zero {
+		return k
+	}
 	if o, ok := vc.origins[s.C[0].id]; ok && s.C[1] == Zero {
 		return App("ckey", SInt, o.row, o.off, s.C[2])
 	}
